@@ -212,6 +212,16 @@ CHECKS['C14'] = dict(
     technique='exploration with a specification-derived inertness oracle (Lean theorem pending the parser model)',
     ref='DESIGN.md section 5, C14')
 
+CHECKS['C03'] = dict(
+    category='exploration',
+    text='Interim level: a seeded grammar produces trees of CommonMark/GFM constructs (depth <= 4, all block and inline kinds '
+         'the property lists), writes each in one of the spellings the specification leaves free, and independently the '
+         'HTML the specification assigns to the tree; the implementation output must be equivalent under the specification '
+         'test normalisation. The compositional Lean proof over the parser model is the planned upgrade.',
+    note='Trusted: gen_tree.py (writer + expected-HTML writer) and specnorm.py as oracle. Interim level, see DESIGN.md C03.',
+    technique='generator-with-independent-oracle exploration (compositional Lean proof pending the parser model)',
+    ref='DESIGN.md section 5, C03')
+
 NOT_YET = {}
 
 
